@@ -373,6 +373,10 @@ func exhaustiveC01(thorough bool, emit func(C01Case) bool) {
 	}
 }
 
-func TestC01(t *testing.T) {
-	Run(t, Prop[C01Case]{ID: "C01", Gen: genC01, Exhaustive: exhaustiveC01, Check: checkC01})
+func propC01() Prop[C01Case] {
+	return Prop[C01Case]{ID: "C01", Gen: genC01, Exhaustive: exhaustiveC01, Check: checkC01}
 }
+
+func TestC01(t *testing.T) { Run(t, propC01()) }
+
+func FuzzGenC01(f *testing.F) { RunFuzz(f, propC01()) }
